@@ -919,9 +919,12 @@ class TaskDispatcher(object):
                         callback,
                         branch_id,      # ignored
                         sched_time,     # ignored
-                        timeout_id,     # ignored
+                        timeout_id,
                         task_span
                     ) = request
+
+                    # Cancel the timeout previously set for this request.
+                    self.state_engine.event_dispatcher.clear_timeout(timeout_id)
 
                     with opentracing.tracer.scope_manager.activate(
                         span=task_span,
